@@ -186,7 +186,7 @@ class ComprehensionScope(Scope):
             new_visitor = self.visitor(self.pycore, self.pyobject)
             for node in ast.iter_child_nodes(self.pyobject.get_ast()):
                 new_visitor.visit(node)
-            self.names = dict(self.parent.get_names())
+            self.names = dict(self.parent.get_propagated_names())
             self.names.update(new_visitor.names)
             self.defineds = new_visitor.defineds
 
